@@ -9,7 +9,7 @@
 //!   cmd    (cmd C) (st S..) (text "..") (impl RC)                                 writer output of a command read back by parse_command
 //!   script (st S..) (lines "l1" "l2" ..) (impl (step RC)..)                       read_command until EOF / panic / hang
 //!   gua    (st S..) (response "..") (impl (ok E..)|(err ..)|(panic ..))           get_unsat_assumptions (fake solver)
-//! R = (ok E) | (err "msg") | (panic "loc");  RC = (ok C) | (err "msg") | (panic "loc") | (hang) | (eof)
+//! R = (ok E) | (err "msg") | (panic "file:line" "message");  RC = (ok C) | (err "msg") | (panic "file:line" "message") | (hang) | (eof)
 use crate::c05::*;
 use crate::dump::*;
 use crate::exprgen::lit_value;
@@ -41,9 +41,9 @@ fn dump_res(ctx: &Context, r: &Result<Result<ExprRef, String>, String>, stats: &
     match r {
         Ok(Ok(e)) => format!("(ok {})", dump_expr(ctx, *e)),
         Ok(Err(m)) => format!("(err {})", quote(m)),
-        Err(_) => {
+        Err(m) => {
             stats.bump("impl_panic_loc", &last_panic_loc());
-            format!("(panic {})", quote(&last_panic_loc()))
+            format!("(panic {} {})", quote(&last_panic_loc()), quote(m))
         }
     }
 }
@@ -350,7 +350,7 @@ fn dump_cmd_res(ctx: &Context, r: &Result<Result<SmtCommand, String>, String>, s
                 "(hang)".to_string()
             } else {
                 stats.bump("impl_panic_loc", &last_panic_loc());
-                format!("(panic {})", quote(&last_panic_loc()))
+                format!("(panic {} {})", quote(&last_panic_loc()), quote(&m))
             }
         }
     }
@@ -383,6 +383,54 @@ fn case_cmdtext(id: &str, ctx: &mut Context, syms: &[ExprRef], text: &str, origi
     stats.bump("cmdtext_origin", origin);
     stats.bump(&format!("cmdtext_result:{origin}"), match &res { Ok(Ok(_)) => "ok", Ok(Err(_)) => "err", Err(_) => "panic" });
     format!("(case {id} (kind cmdtext) (st{}) (text {}) (origin {}) (impl {}))", dump_st(ctx, syms), quote(text), quote(origin), dump_cmd_res(ctx, &res, stats))
+}
+
+/// An incremental script that declares / defines ONE name twice, in two push/pop scopes, at two different sorts, and uses it after
+/// each introduction (the symbol table of read_command must hold the latest declaration).  The uses are either generic
+/// (`(= N <term of N's width>)`: read against a stale sort they do not type-check) or independent of the width
+/// (`((_ extract 0 0) N)`, `(concat N N)`: read against a stale sort they silently denote something else).
+fn gen_redeclare(g: &mut Gen) -> Vec<CmdCase> {
+    let w1 = g.width();
+    let mut w2 = g.width();
+    if w2 == w1 {
+        w2 = w1 + 1 + g.rng.below(3) as WidthInt;
+    }
+    let v1 = g.bv(w1, 1);
+    let v2 = g.bv(w2, 1);
+    let s1 = g.fresh_symbol(Type::BV(w1));
+    let name = g.ctx.get_symbol_name(s1).unwrap().to_string();
+    let use1 = use_of(g, s1, w1);
+    // forget the name: the second symbol has another type
+    g.used.retain(|(n, _)| *n != name);
+    let s2 = g.ctx.bv_symbol(&name, w2);
+    g.used.push((name.clone(), Type::BV(w2)));
+    let use2 = use_of(g, s2, w2);
+    let intro = |g: &mut Gen, s: ExprRef, v: ExprRef| if g.rng.chance(1, 3) { CmdCase::Define(s, v) } else { CmdCase::Declare(s) };
+    let mut cmds = vec![CmdCase::Push(1), intro(g, s1, v1), CmdCase::Assert(use1), CmdCase::Pop(1), CmdCase::Push(1), intro(g, s2, v2)];
+    cmds.push(if g.rng.chance(1, 3) { CmdCase::GetValue(use2) } else { CmdCase::Assert(use2) });
+    if g.rng.chance(1, 2) {
+        cmds.push(CmdCase::Pop(1));
+    }
+    cmds
+}
+
+fn use_of(g: &mut Gen, s: ExprRef, w: WidthInt) -> ExprRef {
+    match g.rng.below(4) {
+        0 => {
+            let bit = g.ctx.slice(s, 0, 0);
+            let one = g.ctx.one(1);
+            g.ctx.equal(bit, one)
+        }
+        1 => {
+            let cc = g.ctx.concat(s, s);
+            let z = g.ctx.zero(2 * w);
+            g.ctx.greater(cc, z)
+        }
+        _ => {
+            let rhs = g.bv(w, 1);
+            g.ctx.equal(s, rhs)
+        }
+    }
 }
 
 /// Would `read_response` wait for another line after this answer?  It does while it counts more opening than closing
@@ -427,7 +475,7 @@ fn case_script(id: &str, ctx: &mut Context, syms: &[ExprRef], lines: &[String], 
                     steps.push_str(" (hang)");
                     stats.bump("script_end", "hang");
                 } else {
-                    steps.push_str(&format!(" (panic {})", quote(&last_panic_loc())));
+                    steps.push_str(&format!(" (panic {} {})", quote(&last_panic_loc()), quote(&m)));
                     stats.bump("script_end", "panic");
                     stats.bump("impl_panic_loc", &last_panic_loc());
                 }
@@ -714,8 +762,14 @@ fn run_inner(args: &Args) {
                     g.plain_names = g.rng.chance(2, 3);
                     let k = 1 + g.rng.below(4);
                     let mut cmds = vec![];
-                    for _ in 0..k {
-                        cmds.push(gen_cmd(&mut g, &mut stats));
+                    if g.rng.chance(1, 4) {
+                        cmds = gen_redeclare(&mut g);
+                        stats.bump("script_shape", "redeclare");
+                    } else {
+                        for _ in 0..k {
+                            cmds.push(gen_cmd(&mut g, &mut stats));
+                        }
+                        stats.bump("script_shape", "random");
                     }
                     drop(g);
                     let mut declared: Vec<ExprRef> = vec![];
@@ -879,9 +933,9 @@ fn gua_step(id: &str, sc: &mut patronus::smt::SmtLibSolverCtx, ctx: &mut Context
     let r = match &res {
         Ok(Ok(es)) => format!("(ok{})", es.iter().map(|e| format!(" {}", dump_expr(ctx, *e))).collect::<String>()),
         Ok(Err(m)) => format!("(err {})", quote(m)),
-        Err(_) => {
+        Err(m) => {
             stats.bump("impl_panic_loc", &last_panic_loc());
-            format!("(panic {})", quote(&last_panic_loc()))
+            format!("(panic {} {})", quote(&last_panic_loc()), quote(m))
         }
     };
     stats.bump("gua_result", match &res { Ok(Ok(_)) => "ok", Ok(Err(_)) => "err", Err(_) => "panic" });
